@@ -13,8 +13,12 @@ def main(tier, seed):
         for pol in (("fifo", "lifo") if tier == "quick" else ("explore",)):
             jobs.append(("props.flow", "run_scenario", (n, dict(policy=pol, k=0, error_script=True, errors=2, oracles=("c06",), max_paths=400 if tier == "quick" else 5000,
                                                                  answer_choice=(tier != "quick"), seed=seed), "C06")))
+    # errors the engine raises itself while initialising an act (package not installed / no `uses`)
+    for n in ("init_err_own_catch", "init_err_step_catch", "init_err_uncaught"):
+        for pol in ("fifo", "lifo"):
+            jobs.append(("props.flow", "run_scenario", (n, dict(policy=pol, k=0, engine_errors=["x1"], oracles=("c06",), max_paths=100, seed=seed), "C06")))
     c.run_jobs(jobs)
     return c.finish(
         rule="one path = catch placement scenario x symbolic inputs x (open act chosen, error code from {e1,e2}) x schedule; then every open interrupt is completed",
-        assumptions=ASSUME + ["error source: client error action (failing scripts / invalid parameters: see thorough tier notes)"],
+        assumptions=ASSUME + ["error sources: client error action; act initialisation failing because its package is not installed or `uses` is empty (failing scripts and schema violations are not separately enumerated)"],
         bounds=dict(scenarios=QUICK, codes=["e1", "e2"], nesting="catch on act and/or enclosing step"))
